@@ -62,6 +62,7 @@ type Cfg struct {
 	Race     bool   `json:"race,omitempty"`
 	SoftSec  int    `json:"soft_sec,omitempty"`
 	NoHooks  bool   `json:"passive_hooks,omitempty"`
+	Quiet    bool   `json:"quiet_log,omitempty"` // the library logs errors only (its logger's mutex is one more synchronisation the race detector sees)
 }
 
 func (c Cfg) env() map[string]string {
@@ -77,6 +78,9 @@ func (c Cfg) env() map[string]string {
 	}
 	if c.Crash != "" {
 		e["VERIF_CRASH"] = c.Crash
+	}
+	if c.Quiet {
+		e["VERIF_QUIETLOG"] = "1"
 	}
 	if c.NoHooks {
 		e["VERIF_EVLOG"] = "" // passive hooks: no event log, no monitor mutex between the goroutines
